@@ -326,6 +326,10 @@ namespace occa {
     key["mode"]   = modeDevice->kernelHash(kernelProps).getFullString();
     key["header"] = kernelHeaderHash(kernelProps).getFullString();
     key["source"] = sourceHash.getFullString();
+    // The OKL settings (okl/enabled, okl/include_paths, ...) change the generated code
+    if (kernelProps["okl"].isInitialized()) {
+      key["okl"] = kernelProps["okl"];
+    }
     kernelHash = occa::hash(key);
 
     kernelHash = applyDependencyHash(kernelHash);
